@@ -493,11 +493,14 @@ def model_runs(check, scratch, which):
     for k, (scen, th, a0, faults, invs) in enumerate(runs):
         cfg = tlc.write_cfg(os.path.join(d, 'Retrieval-%d.cfg' % k), spec='Spec', invariants=invs, constants=dict(
             Threads=th, Kind=tlc.Subst(scen), Attrs0=a0, Faults=faults, EnterSafe=True, GuardMode='threadlocal', SaveMode='raw', Descr={'S'}))
-        r = tlc.run_tlc('Retrieval', cfg, scratch, workers=4, timeout=900)
+        r = tlc.run_tlc('Retrieval', cfg, scratch, workers=4, timeout=900, coverage=True)
         name = 'Retrieval(%s, attrs0=%s, faults=%s)' % (scen, ''.join(sorted(a0)), faults)
         check.add_model_run(name, r)
         if r.invariants_violated:
             check.error('%s: invariant violated %s' % (name, r.invariants_violated))
+    if which == 'threads':
+        # the concurrent configurations run without faults (crash points are C16's): the failing successors are disabled by design
+        check.untaken_ok = {'Retrieval!GComputeFails', 'Retrieval!ReadFails', 'Retrieval!SaveFails'}
     if which == 'threads':
         # documented design-level finding: the window race breaks C17_Sequential for retrievers / observers (known finding window-race)
         cfg = tlc.write_cfg(os.path.join(d, 'Retrieval-race.cfg'), spec='Spec', invariants=['C17_Sequential'], constants=dict(
